@@ -34,10 +34,116 @@ theorem get_entry_point_tuple_mem {env : ModelEnv} (hE : EqId env) (s : H) (t : 
   rw [eqAsset_id hE] at this
   exact eq_of_beq this
 
-theorem ra_shape (s : H) (env : ModelEnv) (a : ARef) : model_remove_asset s env a = ?x := by
+/-! ### (2) `Model.remove_asset` as a composition of named pieces -/
+
+/-- body of the loop over `list(asset.associations)` -/
+def raB1 (env : ModelEnv) (a : ARef) (s : H) (l : LRef) : Except PyErr H :=
+  if pyIn (eqAssoc env s) (s.a a).associations l then model_remove_asset_from_association s env a l else .ok s
+
+/-- body of the loop over `self.attackers` -/
+def raB2 (env : ModelEnv) (a : ARef) (s : H) (t : TRef) : Except PyErr H :=
+  match attachment_get_entry_point_tuple s env t a with
+  | some r => (pyRemoveBy (eqEp env s) (s.t t).entry_points r).bind fun l =>
+      .ok (s.setT t { s.t t with entry_points := l })
+  | none => .ok s
+
+/-- the three removals at the end -/
+def raFin (env : ModelEnv) (a : ARef) (s : H) : Except PyErr H :=
+  (pyRemoveBy (eqAsset env s) s.assets a).bind fun l =>
+    .ok { s with assets := l, asset_ids := pySetDiscard s.asset_ids (attrInt (s.a a).id),
+                 asset_names := pySetDiscard s.asset_names (attrStr (s.a a).name) }
+
+theorem forIn_eq_loopE {α σ : Type} (l : List α) (s : σ) (f : σ → α → Except PyErr σ)
+    (b : α → σ → Except PyErr (ForInStep σ))
+    (h : ∀ x s, b x s = (f s x).bind (fun s' => Except.pure (ForInStep.yield s'))) :
+    forIn l s b = loopE f l s := by
+  have hb : b = fun x s => (f s x).bind (fun s' => Except.pure (ForInStep.yield s')) := by
+    funext x s; exact h x s
+  subst hb; rfl
+
+theorem ra_eq (s : H) (env : ModelEnv) (a : ARef) :
+    model_remove_asset s env a =
+      if pyIn (eqAsset env s) s.assets a then
+        (loopE (raB1 env a) (s.a a).associations s).bind fun s1 =>
+        (loopE (raB2 env a) s1.attackers s1).bind fun s2 => raFin env a s2
+      else .error .lookupError := by
   unfold model_remove_asset
-  simp only [bind, Except.bind, pure, Except.pure]
-  trace_state
-  sorry
+  simp only [bind, pure, Except.pure]
+  cases h : pyIn (eqAsset env s) s.assets a
+  · rfl
+  · simp only [Bool.not_true, Bool.false_eq_true, if_false, if_true]
+    congr 1
+    · apply forIn_eq_loopE
+      intro l s0
+      unfold raB1
+      split <;> rfl
+    · funext s1
+      congr 1
+      apply forIn_eq_loopE
+      intro t s0
+      unfold raB2
+      cases hg : attachment_get_entry_point_tuple s0 env t a with
+      | none => rfl
+      | some r =>
+        dsimp only
+        cases pyRemoveBy (eqEp env s0) (s0.t t).entry_points r <;> rfl
+
+/-! ### the loop over the attackers -/
+
+theorem map_eraseP_eq_erase {α β : Type} [BEq β] [LawfulBEq β] (f : α → β) (l : List α) (r : α) :
+    (l.eraseP (fun y => f y == f r)).map f = (l.map f).erase (f r) := by
+  induction l with
+  | nil => rfl
+  | cons x xs ih =>
+    by_cases h : f x = f r
+    · have hb : (f x == f r) = true := by simp [h]
+      rw [List.eraseP_cons_of_pos (by simpa using hb), List.map_cons, h, List.erase_cons_head]
+    · have hb : (f x == f r) = false := by simp [h]
+      rw [List.eraseP_cons_of_neg (by simp [hb]), List.map_cons, List.map_cons, ih,
+        List.erase_cons_tail (by simpa using hb)]
+
+theorem updT_id_of (st : MS.St) (t : Nat) (F : MS.AttObj → MS.AttObj) (h : F (st.tobj t) = st.tobj t) :
+    MS.updT st t F = st := by
+  unfold MS.updT
+  have : (fun x => if x = t then F (st.tobj x) else st.tobj x) = st.tobj := by
+    funext x
+    by_cases hx : x = t
+    · subst hx; rw [if_pos rfl, h]
+    · rw [if_neg hx]
+  rw [this]
+
+theorem raB2_tie {env : ModelEnv} (hE : EqId env) (a : ARef) (s : H) (t : TRef) :
+    ∃ s', raB2 env a s t = .ok s' ∧ abs s' = MS.updT (abs s) t (MS.dropEntry a) := by
+  have htie := get_entry_point_tuple_tie hE s t a
+  unfold raB2
+  cases hg : attachment_get_entry_point_tuple s env t a with
+  | none =>
+    refine ⟨s, rfl, ?_⟩
+    rw [hg] at htie
+    have hnone : ((abs s).tobj t).entry.find? (·.1 = a) = none := htie.symm
+    rw [updT_id_of]
+    unfold MS.dropEntry
+    rw [hnone]
+  | some r =>
+    obtain ⟨hmem, _⟩ := get_entry_point_tuple_mem hE s t a r hg
+    have hin : pyIn (eqEp env s) (s.t t).entry_points r = true := by
+      unfold pyIn
+      rw [List.any_eq_true]
+      exact ⟨r, hmem, by unfold eqEp; simp⟩
+    dsimp only
+    unfold pyRemoveBy
+    rw [if_pos hin]
+    refine ⟨_, rfl, ?_⟩
+    apply abs_setT_updT
+    rw [hg] at htie
+    have hsome : (absAtt s (s.t t)).entry.find? (·.1 = a) = some (epVal s r) := htie.symm
+    unfold MS.dropEntry
+    rw [hsome]
+    have hf : (fun y => eqEp env s y r) = (fun y => epVal s y == epVal s r) := by
+      funext y; exact eqEp_id hE s y r
+    rw [hf]
+    show ({ id := _, name := _, entry := _ } : MS.AttObj) = { id := _, name := _, entry := _ }
+    congr 1
+    exact map_eraseP_eq_erase (epVal s) _ r
 
 end MalVerif.PyM.Tie
